@@ -2,7 +2,7 @@ SPECIFICATION Spec
 CONSTANTS
   W = 8
   NRef = 3
-  NPeer = 1
+  NPeer = 0
   Vals <- ValsExh
   Cfgs <- AdmBasic
   MaxRound = 2
